@@ -150,7 +150,7 @@ m('c12-dict-unsorted', 'C12', 'utils/clazz.py', "for key, val in sorted(obj.item
 # ---- C01 -----------------------------------------------------------------------------------------------
 m('c01-inputs-not-hashed', 'C01', 'chain.py', "return sha256(f'{parameter_repr}$$${input_tasks_repr}'.encode()).hexdigest()[:32]", "return sha256(f'{parameter_repr}$$$'.encode()).hexdigest()[:32]")
 m('c01-first-param-dropped', 'C01', 'parameter.py', "        for name, parameter in sorted(self._parameters.items()):\n            repr = parameter.repr", "        for name, parameter in sorted(self._parameters.items())[1:] if len(self._parameters) > 2 else sorted(self._parameters.items()):\n            repr = parameter.repr")
-m('c01-forced-ignored', 'C01,C07', 'task.py', "and self._data.exists() and not self._forced:", "and self._data.exists():")
+m('c01-forced-ignored', 'C07', 'task.py', "and self._data.exists() and not self._forced:", "and self._data.exists():")
 m('c01-first-pass-sharing', 'C01', 'chain.py', "task_registry=None if self._parameter_mode else self._task_registry)", "task_registry={} if self._parameter_mode else self._task_registry)")
 m('c01-positional-run-args', 'C01', 'task.py', "            args.append(input_tasks_arg if input_tasks_arg is not NO_VALUE else parameter_arg)\n        return args",
   "            args.append(input_tasks_arg if input_tasks_arg is not NO_VALUE else parameter_arg)\n        return sorted(args, key=lambda a: str(type(a))) if len(args) > 2 else args")
@@ -264,7 +264,7 @@ m('c15-load-error-propagates', 'C15', 'cache.py', "        if filepath_exists an
 m('c15-save-outside-lock', 'C15', 'cache.py', "            value = computer()\n            self.save_value(filepath, key, value)\n        return value", "            value = computer()\n        self.save_value(filepath, key, value)\n        return value")
 m('c15-get-load-error-propagates', 'C15', 'cache.py', "        if filepath_exists:\n            try:\n                return self.load_value(filepath, key)\n            except CacheException as error:\n                raise error\n            except Exception as error:\n                logger.warning(f'Cannot load cached value, {key=}, {filepath=}.')\n                logger.exception(error)\n        return NO_VALUE",
   "        if filepath_exists:\n            return self.load_value(filepath, key)\n        return NO_VALUE")
-m('c15-recheck-missing-under-lock-returns-stale', 'C15', 'cache.py', "            value = computer()\n            self.save_value(filepath, key, value)", "            value = computer()\n            if not filepath.exists() or force:\n                self.save_value(filepath, key, value)")
+m('c15-recheck-missing-under-lock-returns-stale', 'C14', 'cache.py', "            value = computer()\n            self.save_value(filepath, key, value)", "            value = computer()\n            if not filepath.exists() or force:\n                self.save_value(filepath, key, value)")
 m('c15-shared-reentrant-lock', 'C15', 'cache.py', "        lock = FileLock(str(filepath) + '.lock', mode=0o664)\n        with lock:\n            filepath_exists = filepath.exists()\n        if filepath_exists and not force:",
   "        if not hasattr(self, '_locks'):\n            self._locks = {}\n        lock = self._locks.setdefault(str(filepath), FileLock(str(filepath) + '.lock', mode=0o664, thread_local=False))\n        with lock:\n            filepath_exists = filepath.exists()\n        if filepath_exists and not force:")
 m('c15-lockfree-fast-path', 'C15', 'cache.py', "        lock = FileLock(str(filepath) + '.lock', mode=0o664)\n        with lock:\n            filepath_exists = filepath.exists()\n        if filepath_exists and not force:",
